@@ -427,6 +427,7 @@ def worker(args):
                 part.see(("syntax", fam)); part.add("syntax_fault_families", fam)
             layout.render(toks)   # restore offsets
     obs.close()
+    feat.report(part)
     return part
 
 
